@@ -11,7 +11,11 @@
 // to end: neutrino.NewRescan(&neutrino.RescanChainSource{svc}) on the complete
 // ChainService against live simulated peers while the honest chain grows and
 // reorganises, peers drop filter / block requests and Rescan.Update is issued;
-// one child process per scenario.
+// one child process per scenario. Family l2-persist (internal/c09/l2persist.go):
+// the client runs with PersistToDisk, a first rescan fills the filter store
+// through the batch writer, the filter cache is made cold (restart on the same
+// data directory / tiny cache) and a second rescan (also rewound by an Update)
+// over the same range is served from the persisted store.
 package main
 
 import (
@@ -24,12 +28,12 @@ func main() {
 	r := evid.New("C09", "exploration")
 	if l2.IsChild() {
 		// Scenario child of the L2 part: runs one scenario and exits.
-		l2.RunScenarios(r, 0, c09.L2ChildTimeout, c09.L2Scenario)
+		l2.RunScenarios(r, 0, c09.L2ChildTimeout, c09.L2Dispatch(r))
 	}
 
 	c09.Component(r)
 
 	c09.L2Run(r)
 
-	r.Finish(c09.MinDistinct + c09.L2MinDistinct)
+	r.Finish(c09.MinDistinct + c09.L2MinDistinct + c09.L2PersistMinDistinct)
 }
